@@ -426,20 +426,32 @@ func execC04RunnerGate(a c04Args) CaseOut {
 	d.kill()
 	ctx := fmt.Sprintf("history G4 (daemon killed while the runner of a slow unit is parked at %s, restarted, then the runner goes on)", a.Gate)
 	at := fmt.Sprintf("runner@%s+%dms", a.Gate, a.Second)
-	tStart := time.Now() // the recovery's monitor cannot have started before this
-	d2, err := startDaemon(dir, "n1", nil)
-	if err != nil {
-		out.violate("crash:daemon-does-not-restart:at="+at, "%s: %v", ctx, err)
+	// the restarted daemon is parked where its recovery starts to monitor the unit, so that the moment is known;
+	// it is released there, and the runner goes on a.Second ms later
+	os.WriteFile(filepath.Join(gates, "daemon.monitor.start.wait"), nil, 0o600)
+	startedCh := make(chan *daemon, 1)
+	var startErr error
+	go func() {
+		dd, err := startDaemon(dir, "n1", []string{"VERIF_GATE_DIR=" + gates})
+		startErr = err
+		startedCh <- dd
+	}()
+	if !waitFile(filepath.Join(gates, "daemon.monitor.start.arrived"), 20*time.Second) {
+		out.count("gate_not_reached", 1)
+	}
+	tStart := time.Now() // the recovery's monitor starts now
+	os.WriteFile(filepath.Join(gates, "daemon.monitor.start.go"), nil, 0o600)
+	time.Sleep(time.Duration(a.Second) * time.Millisecond)
+	os.WriteFile(filepath.Join(gates, "runner."+a.Gate+".go"), nil, 0o600)
+	d2 := <-startedCh
+	if startErr != nil || d2 == nil {
+		out.violate("crash:daemon-does-not-restart:at="+at, "%s: %v", ctx, startErr)
 		if d2 != nil {
 			d2.kill()
 		}
 		return out
 	}
 	defer d2.kill()
-	// the recovery has looked at the unit (work types are registered before the control socket opens);
-	// the runner goes on a.Second ms later
-	time.Sleep(time.Duration(a.Second) * time.Millisecond)
-	os.WriteFile(filepath.Join(gates, "runner."+a.Gate+".go"), nil, 0o600)
 	// the runner ends on its own: wait for its final record on disk
 	recPath := filepath.Join(dir, "data", "n1", id, "status")
 	var disk struct {
@@ -556,7 +568,7 @@ func coordC04(c *Coord) {
 	}
 	for _, g := range []string{"runner.started"} {
 		// (Second = delay in ms between the end of the recovery and the runner going on)
-		jobs = append(jobs, c04Args{History: "G4", Role: "runner", Gate: g, Second: 50})
+		jobs = append(jobs, c04Args{History: "G4", Role: "runner", Gate: g, Second: 0})
 		jobs = append(jobs, c04Args{History: "G4", Role: "runner", Gate: g, Second: 1500})
 	}
 	var names []string
@@ -589,7 +601,7 @@ func init() {
 		ID:        "C04",
 		Level:     "fault_enumeration",
 		Technique: "crash-point enumeration on the real daemon and its command-runner: the process kills itself (SIGKILL) at the k-th hook point it reaches, for every k of each history; restart on the same data directory; acknowledged units compared with the submitter's model",
-		Rule: "histories: H1 one local unit to completion + results; H2 two submissions, the second while the first runs (thorough: H3 unit still running at the crash, H5 failing unit + release of a finished unit); R1 a unit submitted by n1 to a second real daemon n2 over a TCP link, followed to completion, with n1 killed at each of its points and, in addition, from outside while n2 is parked at {unit allocated, stdin file created, input received, before start} of its submission handler; G3 a running command whose daemon is killed and whose restarted daemon is parked at {1st..3rd record read, 3rd/4th lock release, start of the status monitor} of its recovery until the runner has written the final record; G4 the daemon killed and restarted while the runner is parked right after it started the command (record still Pending), then released 50 ms / 1.5 s after the recovery; for each history every daemon crash point k=1..n+3 (n from a counting run) and every runner crash point; thorough: H1 with a second crash at the 1st..12th point of the recovery. " +
+		Rule: "histories: H1 one local unit to completion + results; H2 two submissions, the second while the first runs (thorough: H3 unit still running at the crash, H5 failing unit + release of a finished unit); R1 a unit submitted by n1 to a second real daemon n2 over a TCP link, followed to completion, with n1 killed at each of its points and, in addition, from outside while n2 is parked at {unit allocated, stdin file created, input received, before start} of its submission handler; G3 a running command whose daemon is killed and whose restarted daemon is parked at {1st..3rd record read, 3rd/4th lock release, start of the status monitor} of its recovery until the runner has written the final record; G4 the daemon killed and restarted while the runner is parked right after it started the command (record still Pending), then released at the moment the recovery starts to monitor the unit / 1.5 s later; for each history every daemon crash point k=1..n+3 (n from a counting run) and every runner crash point; thorough: H1 with a second crash at the 1st..12th point of the recovery. " +
 			"A case is one (history, role, k); all are distinct; non-trivial = a crash point was selected. Oracle after restart: every acknowledged unit listed with its work type; a unit seen finished keeps state and size and its full output can be fetched; other units reach a final state within 25 s (daemon crashes); every query answers; remote work: listed as remote work for the same node and type, a remote unit ID named by the record at the crash (or, once n2 has received the input, created by n2) is the one named after the restart; G4: what the node reports in the end equals the runner's final record on disk.",
 		Assumptions: []string{"process kill between two hook points (file-system steps), not power loss with torn writes", "real time: a query counts as unanswered after 30 s", "a runner that died is checked for listing and answering only"},
 		Exec:        execC04,
